@@ -7,7 +7,7 @@ use crate::wire::*;
 use serde_json::{Value, json};
 use simplesl::{Code, Interpreter, variable::Variable};
 
-const NAMES: [&str; 29] = ["x", "c", "f", "g", "inc", "ts", "ta", "sp", "sq", "se", "y", "z", "a", "p", "q", "r", "w", "it", "n", "u", "ua", "tt", "default", "ints", "dd", "bf", "bb", "lv", "h_0"];
+const NAMES: [&str; 31] = ["x", "c", "f", "g", "ps", "rp", "inc", "ts", "ta", "sp", "sq", "se", "y", "z", "a", "p", "q", "r", "w", "it", "n", "u", "ua", "tt", "default", "ints", "dd", "bf", "bb", "lv", "h_0"];
 
 #[derive(Clone, Debug, PartialEq)]
 enum Out {
@@ -256,6 +256,35 @@ pub fn run(args: &[String]) -> Value {
             };
             if hres != lres {
                 mm.push("host", json!({"id": hc["id"], "call": call_text, "what": format!("host call returned {hres:?}, in-language call {lres:?}")}));
+            }
+            // the call run UNSCOPED into a host interpreter of its own: same result, and nothing the callee binds (its own
+            // name, its parameters, its locals) is left behind in that interpreter; names the host had stay what they were
+            if let Ok(Ok(code)) = catch(|| f.clone().create_call(argv.clone())) {
+                let mut own = Interpreter::without_stdlib();
+                let params: Vec<String> = hc["decl"]["ps"].as_array().map(|ps| ps.iter().map(|p| p["n"].as_str().unwrap_or("").to_string()).collect()).unwrap_or_default();
+                let mut watched: Vec<String> = params.clone();
+                watched.push(fname.to_string());
+                for n in &watched {
+                    own.insert(n.as_str().into(), Variable::String("host".into()));
+                }
+                let ures = match catch(|| code.exec_unscoped(&mut own)) {
+                    Err(p) => Out::Panic(p),
+                    Ok(Err(e)) => Out::Error(exec_error_kind(&e).to_string()),
+                    Ok(Ok(v)) => { let mut ids = Ids::default(); Out::Value(strip_ids(&value_to_wire(&v, &mut ids, 0))) }
+                };
+                if ures != hres {
+                    mm.push("host", json!({"id": hc["id"], "call": call_text, "what": format!("exec() returned {hres:?}, exec_unscoped() {ures:?}")}));
+                }
+                for n in &watched {
+                    if !matches!(own.get_variable(n), Some(Variable::String(s)) if &**s == "host") {
+                        mm.push("host", json!({"id": hc["id"], "call": call_text, "what": format!("the host interpreter's own `{n}` was overwritten by a host call run unscoped: {:?}", own.get_variable(n))}));
+                    }
+                }
+                for n in ["u", "n", "y", "e", "acc"] {
+                    if own.get_variable(n).is_some() && !watched.iter().any(|w| w == n) {
+                        mm.push("host", json!({"id": hc["id"], "call": call_text, "what": format!("a local `{n}` of the callee is bound in the host interpreter after a host call run unscoped")}));
+                    }
+                }
             }
             match (&hres, hc["status"].as_str().unwrap()) {
                 (Out::Value(v), "value") => {
